@@ -192,13 +192,12 @@ theorem community_infl (now inflow : Int) (s s' : CommSt) (f : Bool) (paid : Int
   · cases h
   · cases h
 
-theorem chain_eq (v : Variant) (now inflow : Int) (c : Chain) :
-    chainBeginBlock v now inflow c =
+theorem chain_eq (v : Variant) (zp : Bool) (pow : Int → Int → Int) (now inflow mintProv : Int) (c : Chain) :
+    chainBeginBlock v zp pow now inflow mintProv c =
       match communityBeginBlock now inflow c.comm with
       | .ok (s, f, p) =>
-        .ok { comm := s, kd := (mintPeriodInflation v s.infl.kavadistActive now c.kd).1, fired := f, paid := p,
-              kdMints := (mintPeriodInflation v s.infl.kavadistActive now c.kd).2.1 ++
-                (mintPeriodInflation v s.infl.kavadistActive now c.kd).2.2.1 }
+        kavadistBeginBlock v zp pow now
+          { comm := s, kd := c.kd, supply := c.supply + mintProv, fired := f, paid := p, kdMints := [], kdMinted := 0 }
       | .err => .err
       | .panic => .panic := by
   unfold chainBeginBlock
@@ -209,6 +208,88 @@ theorem chain_eq (v : Variant) (now inflow : Int) (c : Chain) :
   | err => simp
   | panic => simp
 
+theorem kavadist_inactive (v : Variant) (zp : Bool) (pow : Int → Int → Int) (now : Int) (c : Chain)
+    (h : c.comm.infl.kavadistActive = false) :
+    kavadistBeginBlock v zp pow now c = .ok { c with kdMints := [], kdMinted := 0 } := by
+  unfold kavadistBeginBlock
+  simp [h, mintPeriodInflation, applyMints]
+
+theorem kavadist_no_zp (v : Variant) (pow : Int → Int → Int) (now : Int) (c : Chain) :
+    ∃ c', kavadistBeginBlock v false pow now c = .ok c' := by
+  unfold kavadistBeginBlock
+  simp
+
+theorem kavadist_no_infra (v : Variant) (zp : Bool) (pow : Int → Int → Int) (now : Int) (c : Chain)
+    (h : c.kd.infra = []) : ∃ c', kavadistBeginBlock v zp pow now c = .ok c' := by
+  unfold kavadistBeginBlock mintPeriodInflation
+  cases ha : c.comm.infl.kavadistActive with
+  | false => simp [applyMints]
+  | true =>
+    cases hp : c.kd.prev with
+    | none => simp [applyMints]
+    | some prev => simp [h, mintInfrastructurePeriods, applyMints]
+
+/-- `PayoutAccumulatedStakingRewards` on an initialised state pays what `calculateStakingRewards`
+    returns and never panics -/
+theorem payout_ok (rate : Dec) (now last : Int) (s : StakingSt)
+    (hl : s.last = some last) (hd : last ≤ now) (hr : 0 ≤ rate.m) (he : 0 ≤ s.err.m ∧ s.err.m < P)
+    (hp : 0 ≤ s.pool) :
+    ∃ s' paid, payout rate now s = .ok (s', paid) ∧
+      paid = (calculateStakingRewards now last s.err rate (Dec.ofInt s.pool)).1 ∧
+      s'.err = (calculateStakingRewards now last s.err rate (Dec.ofInt s.pool)).2 ∧
+      0 ≤ paid ∧ paid ≤ s.pool ∧ s'.pool = s.pool - paid ∧ s'.fee = s.fee + paid ∧
+      s'.last = some now ∧ 0 ≤ s'.err.m ∧ s'.err.m < P := by
+  obtain ⟨c1, c2, c3, c4, -, -⟩ := calc_step now last s.err rate s.pool hd hr he.1 he.2 hp _ rfl
+  unfold payout
+  rw [hl]
+  simp only []
+  generalize calculateStakingRewards now last s.err rate (Dec.ofInt s.pool) = r at *
+  by_cases h0 : r.1 = 0
+  · simp only [h0, ite_true]
+    exact ⟨_, _, rfl, rfl, rfl, by omega, by omega, by simp only []; omega, by simp only []; omega, rfl, c1, c2⟩
+  · have h1 : ¬ r.1 < 0 := by omega
+    have h2 : ¬ s.pool < r.1 := by omega
+    simp only [h0, h1, h2, ite_false]
+    exact ⟨_, _, rfl, rfl, rfl, c3, c4, rfl, rfl, rfl, c1, c2⟩
+
+theorem payout_init (rate : Dec) (now : Int) (s : StakingSt) (hl : s.last = none) :
+    payout rate now s = .ok ({ s with last := some now }, 0) := by
+  unfold payout; rw [hl]
+
+theorem disable_rate_nonneg (now : Int) (p : CommParams) (x : Infl) (h1 : 0 ≤ p.rate.m)
+    (h2 : 0 ≤ p.upgradeRate.m) : 0 ≤ (checkAndDisable now p x).2.1.rate.m := by
+  unfold checkAndDisable
+  split
+  · exact h1
+  · split
+    · exact h1
+    · exact h2
+
+theorem community_ok (now inflow : Int) (s : CommSt) (hr : 0 ≤ s.params.rate.m)
+    (hur : 0 ≤ s.params.upgradeRate.m) (hl : ∀ l, s.stk.last = some l → l ≤ now)
+    (he : 0 ≤ s.stk.err.m ∧ s.stk.err.m < P) (hp : 0 ≤ s.stk.pool) (hin : 0 ≤ inflow) :
+    ∃ r, communityBeginBlock now inflow s = .ok r := by
+  unfold communityBeginBlock
+  simp only []
+  have hrate := disable_rate_nonneg now s.params s.infl hr hur
+  generalize checkAndDisable now s.params s.infl = d at *
+  generalize hstk : (if d.1 = true then { s.stk with pool := s.stk.pool + inflow } else s.stk) = stk
+  have hlast : stk.last = s.stk.last := by rw [← hstk]; split <;> rfl
+  have herr : stk.err = s.stk.err := by rw [← hstk]; split <;> rfl
+  have hpool : 0 ≤ stk.pool := by
+    rw [← hstk]; split
+    · simp only []; omega
+    · exact hp
+  cases hq : s.stk.last with
+  | none =>
+    rw [payout_init _ _ _ (by rw [hlast, hq])]
+    exact ⟨_, rfl⟩
+  | some l =>
+    obtain ⟨s', paid, h, -⟩ := payout_ok d.2.1.rate now l stk (by rw [hlast, hq]) (hl l hq) hrate
+      (by rw [herr]; exact he) hpool
+    rw [h]
+    exact ⟨_, rfl⟩
+
 theorem chopTrunc_mono (a b : Int) (h : a ≤ b) : chopTrunc a ≤ chopTrunc b := by
   unfold chopTrunc tquo
   have hP : (0 : Int) ≤ P := by decide
@@ -217,10 +298,10 @@ theorem chopTrunc_mono (a b : Int) (h : a ≤ b) : chopTrunc a ≤ chopTrunc b :
 
 theorem mintAmount_eq (pow : Int → Int → Int) (supply : Int) (rate : Dec) (secs : Int) :
     mintAmount pow supply rate secs =
-      chopTrunc (supply * pow (Dec.truncateInt (Dec.mul rate (Dec.ofInt P))) secs - supply * P) := by
+      chopTrunc (supply * pow (inflationInt rate) secs - supply * P) := by
   unfold mintAmount
   simp only []
-  generalize pow (Dec.truncateInt (Dec.mul rate (Dec.ofInt P))) secs = pw
+  generalize pow (inflationInt rate) secs = pw
   have h1 : Dec.mul ⟨pw * P⟩ Dec.smallest = ⟨pw⟩ := by
     unfold Dec.mul Dec.smallest; simp only [Int.mul_one, chopRound_mul_P]
   rw [h1]
@@ -229,20 +310,21 @@ theorem mintAmount_eq (pow : Int → Int → Int) (supply : Int) (rate : Dec) (s
   rw [Int.mul_right_comm, chopRound_mul_P]
 
 /-- the minted amount is monotone in the number of seconds whenever `pow` is monotone in its exponent -/
-theorem mintAmount_mono (pow : Int → Int → Int) (hpow : ∀ x n n', n ≤ n' → pow x n ≤ pow x n')
-    (supply : Int) (hs : 0 ≤ supply) (rate : Dec) (secs secs' : Int) (h : secs ≤ secs') :
+theorem mintAmount_mono (pow : Int → Int → Int) (supply : Int) (hs : 0 ≤ supply) (rate : Dec)
+    (hpow : ∀ n n', n ≤ n' → pow (inflationInt rate) n ≤ pow (inflationInt rate) n')
+    (secs secs' : Int) (h : secs ≤ secs') :
     mintAmount pow supply rate secs ≤ mintAmount pow supply rate secs' := by
   rw [mintAmount_eq, mintAmount_eq]
   apply chopTrunc_mono
-  have := Int.mul_le_mul_of_nonneg_left (hpow (Dec.truncateInt (Dec.mul rate (Dec.ofInt P))) secs secs' h) hs
+  have := Int.mul_le_mul_of_nonneg_left (hpow secs secs' h) hs
   omega
 
 theorem mintAmount_nonneg (pow : Int → Int → Int) (supply : Int) (hs : 0 ≤ supply) (rate : Dec) (secs : Int)
-    (h : P ≤ pow (Dec.truncateInt (Dec.mul rate (Dec.ofInt P))) secs) :
+    (h : P ≤ pow (inflationInt rate) secs) :
     0 ≤ mintAmount pow supply rate secs := by
   rw [mintAmount_eq]
   have := Int.mul_le_mul_of_nonneg_left h hs
   have h0 : chopTrunc 0 = 0 := by decide
-  have := chopTrunc_mono 0 (supply * pow (Dec.truncateInt (Dec.mul rate (Dec.ofInt P))) secs - supply * P) (by omega)
+  have := chopTrunc_mono 0 (supply * pow (inflationInt rate) secs - supply * P) (by omega)
   omega
 end KV.Em
